@@ -14,6 +14,7 @@ import (
 	"path/filepath"
 	"strings"
 	"sync"
+	"syscall"
 	"time"
 
 	"github.com/BurntSushi/toml"
@@ -36,6 +37,8 @@ type c14Sub struct {
 	Inputs []c14Input `json:"inputs"` // raw bytes for the inputs
 	Dels   []c14Del   `json:"dels"`   // Table.DelDestination calls (what the http api does), after the commands
 	WaitMs int        `json:"wait_ms"`
+	// address-space limit for the child (RLIMIT_AS, in KiB; 0 = none): a relay on a machine without spare gigabytes
+	RlimitKB uint64 `json:"rlimit_kb"`
 }
 
 type c14Del struct {
@@ -89,10 +92,24 @@ func runC14(raw json.RawMessage) (interface{}, error) {
 					}
 				}
 			case <-time.After(time.Duration(c.Subs[i].WaitMs+10000) * time.Millisecond):
-				cmd.Process.Kill()
+				// ask the Go runtime for a goroutine dump before giving up on the child
+				cmd.Process.Signal(syscall.SIGQUIT)
+				select {
+				case <-done:
+				case <-time.After(2 * time.Second):
+					cmd.Process.Kill()
+				}
 				r.Timeout, r.Exit = true, -2
 			}
 			s := se.String()
+			if r.Timeout {
+				if len(s) > 12000 {
+					s = s[:12000]
+				}
+				r.Stderr = s
+				res[i] = r
+				return
+			}
 			if k := strings.Index(s, "panic:"); k >= 0 {
 				s = s[k:]
 			} else if k := strings.Index(s, "fatal error:"); k >= 0 {
@@ -125,6 +142,10 @@ func c14Child() {
 	if err := json.Unmarshal(data, &c); err != nil {
 		fmt.Println(`{"error":"bad case"}`)
 		os.Exit(0)
+	}
+	if c.RlimitKB > 0 {
+		lim := syscall.Rlimit{Cur: c.RlimitKB * 1024, Max: c.RlimitKB * 1024}
+		syscall.Setrlimit(syscall.RLIMIT_AS, &lim)
 	}
 	realOut := os.Stdout
 	if devnull, e := os.OpenFile(os.DevNull, os.O_WRONLY, 0); e == nil {
